@@ -100,8 +100,20 @@ def cut_text(rng, text, mode):
     return b[:j]
 
 
+FOLD_TWINS = {"i": "\u0130\u0131", "I": "\u0130\u0131", "s": "\u017f", "S": "\u017f", "k": "\u212a", "K": "\u212a"}
+
+
 def corrupt(rng, text):
     ls = text.split("\n")
+    if rng.random() < 0.08 and text:
+        # a letter replaced by a character that case-insensitive matching takes for it but that
+        # upper()/lower() map elsewhere (dotted I, dotless i, long s, Kelvin sign)
+        for _ in range(rng.randint(1, 3)):
+            pos = [j for j, c in enumerate(text) if c in FOLD_TWINS]
+            if pos:
+                j = rng.choice(pos)
+                text = text[:j] + rng.choice(FOLD_TWINS[text[j]]) + text[j + 1:]
+        return text
     r = rng.random()
     if r < 0.15 and text:
         b = bytearray(text.encode("utf-8"))
